@@ -135,6 +135,32 @@ Theorem C15_retriever_index_full : forall size kw offset (data : list Z),
 Proof. exact retriever_index. Qed.
 Print Assumptions C15_retriever_index_full.
 
+(* HISTORIES: one GLWEBlindRetriever object (Model/C15Uint.v: r_alloc, r_add, r_flush, r_reset, r_retrieve as the code has
+   them — reset clears every num and the counter, the data words stay) through any list of complete rounds, each either
+   retrieve(data, k, offset) (kind 0) or add(every input) ; flush (kind 1), with 1 <= len <= 2^L inputs and an index inside
+   them: every round returns data[(k >> offset) mod 2^L], and the retriever is clean again after each round
+   (counter 0, every num 0, L accumulators) — in particular an earlier round never influences a later one *)
+Theorem C15_retriever_history : forall (size : Z) (rounds : list (Z * Z * Z * list Z)),
+  Forall (fun r => let '(kind, kw, off, data) := r in
+            (kind = 0 \/ kind = 1) /\ 0 <= off /\ off + retr_nacc size <= 32 /\
+            Z.of_nat (length data) <= 2 ^ retr_nacc size /\
+            (kw / 2 ^ off) mod 2 ^ retr_nacc size < Z.of_nat (length data)) rounds ->
+  forall st,
+  (r_cnt st = 0 /\ Forall (fun dn : Z * Z => snd dn = 0) (r_acc st) /\ Z.of_nat (length (r_acc st)) = retr_nacc size) ->
+  exists st',
+    r_history (map (fun r => let '(kind, kw, off, data) := r in (kind, bits_of 32 kw, off, data)) rounds) st =
+      Some (map (fun r => let '(kind, kw, off, data) := r in lget data ((kw / 2 ^ off) mod 2 ^ retr_nacc size)) rounds, st') /\
+    (r_cnt st' = 0 /\ Forall (fun dn : Z * Z => snd dn = 0) (r_acc st') /\ Z.of_nat (length (r_acc st')) = retr_nacc size).
+Proof. exact retriever_history. Qed.
+Print Assumptions C15_retriever_history.
+
+(* a freshly allocated retriever is clean *)
+Theorem C15_retriever_alloc_clean : forall size,
+  r_cnt (r_alloc size) = 0 /\ Forall (fun dn : Z * Z => snd dn = 0) (r_acc (r_alloc size)) /\
+  Z.of_nat (length (r_acc (r_alloc size))) = retr_nacc size.
+Proof. exact alloc_clean. Qed.
+Print Assumptions C15_retriever_alloc_clean.
+
 (* the reverse butterfly glwe_blind_retrieval_statefull_rev is covered by the correspondence check only *)
 
 (** * Word operations *)
@@ -386,3 +412,11 @@ Example C15_ex_cbt_hypotheses_satisfiable : forall logn base2k dnum rank bb expo
               (j_post logn dnum ld lgo) j_expand logn dnum expo ld m)
       row col (cand logn expo lgo m).
 Proof. exact ideal_cbt_cells. Qed.
+
+(* a retriever allocated for 8 inputs, used twice on 3 inputs (the case where a stale top accumulator would show) and then
+   on 8: every round returns its own data[idx] *)
+Example C15_ex_retriever_history :
+  option_map fst (r_history [(0, bits_of 32 0, 0, [11; 12; 13]); (0, bits_of 32 1, 0, [21; 22; 23]);
+                             (1, bits_of 32 2, 0, [31; 32; 33]); (1, bits_of 32 7, 0, [41; 42; 43; 44; 45; 46; 47; 48])]
+                            (r_alloc 8)) = Some [11; 22; 33; 48].
+Proof. vm_compute. reflexivity. Qed.
